@@ -45,3 +45,30 @@ Definition a_spec (J : nat) (groups : list (list R * list (list R))) : list (lis
 Definition wf_groups (J : nat) (groups : list (list R * list (list R))) : Prop :=
   Forall (fun g => length (snd g) = J /\ Forall (fun Yg => length Yg = length (fst g)) (snd g))
          groups.
+
+(* numpy broadcasting of a yield array against a group of n sources: equal length,
+   or a single value repeated; anything else is an error *)
+Definition bcast (n : nat) (Y : list R) : option (list R) :=
+  if Nat.eqb (length Y) n then Some Y
+  else match Y with [y] => Some (repeat y n) | _ => None end.
+(* the yields of the first J datasets of one group, broadcast *)
+Fixpoint bcast_col (n J : nat) (Ycol : list (list R)) : option (list (list R)) :=
+  match J with
+  | O => Some []
+  | S J' => match Ycol with
+            | [] => None
+            | Y :: r => match bcast n Y, bcast_col n J' r with
+                        | Some y, Some t => Some (y :: t)
+                        | _, _ => None
+                        end
+            end
+  end.
+Fixpoint norm_groups (J : nat) (groups : list (list R * list (list R)))
+  : option (list (list R * list (list R))) :=
+  match groups with
+  | [] => Some []
+  | (W, Ycol) :: r => match bcast_col (length W) J Ycol, norm_groups J r with
+                      | Some Y', Some r' => Some ((W, Y') :: r')
+                      | _, _ => None
+                      end
+  end.
